@@ -176,19 +176,30 @@ def coveredBy (rec : String → Except Err (List Nat)) : List String → List Na
     | .ok l => coveredBy rec us (acc ++ l)
     | .error e => .error e
 
+/-- `seg_group.members = …; seg_group.includes = …` on the first group with id `g` -/
+def setMI (g : String) (ms : List Nat) (is : List String) (s : State) : State :=
+  { s with groups := updGroup g (fun G => { G with members := ms, includes := is }) s.groups }
+
+def setM (g : String) (ms : List Nat) (s : State) : State :=
+  { s with groups := updGroup g (fun G => { G with members := ms }) s.groups }
+
+/-- the members that stay, by the tree's variant of the loop -/
+def prune (cfg : Cfg) (s1 : State) (members : List Nat) (includes : List String) : Except Err (List Nat) :=
+  if cfg.optFixed then
+    match coveredBy (resolve s1) includes [] with
+    | .ok cov => .ok (members.filter (fun m => !cov.contains m))
+    | .error e => .error e
+  else survivorsCur (resolve s1) members includes []
+
 def optimiseGroup (cfg : Cfg) (s : State) (g : String) : Except Err State :=
   match findGroup s.groups g with
   | none => .error .valueError
   | some G =>
-    let members := dedup G.members
-    let includes := dedupStr G.includes
-    let s1 : State := { s with groups := updGroup g (fun G => { G with members := members, includes := includes }) s.groups }
-    if includes ≠ [] ∧ members ≠ [] then
-      let r := if cfg.optFixed then
-          (coveredBy (resolve s1) includes []).map (fun cov => members.filter (fun m => !cov.contains m))
-        else survivorsCur (resolve s1) members includes []
-      match r with
-      | .ok ms => .ok { s1 with groups := updGroup g (fun G => { G with members := natSort ms }) s1.groups }
+    -- de-duplicated members and includes are written back first
+    let s1 := setMI g (dedup G.members) (dedupStr G.includes) s
+    if dedupStr G.includes ≠ [] ∧ dedup G.members ≠ [] then
+      match prune cfg s1 (dedup G.members) (dedupStr G.includes) with
+      | .ok ms => .ok (setM g (natSort ms) s1)
       | .error e => .error e
     else .ok s1
 
